@@ -196,19 +196,27 @@ def function_level(ctx, names, with_model=True, light=False):
                 s = await server.build_mlsx_string(conn, path)
                 add("names mlsxbuild %s %s" % (nc.canon_dict(facts), enc_str(n)), enc_str(s), "build_mlsx_string", inp)
                 wire = (s + "\r\n").encode("utf-8")
-                p1, e1 = client.parse_mlsx_line(wire)
+                try:
+                    p1, e1 = client.parse_mlsx_line(wire)
+                except Exception as e:  # noqa
+                    p1, e1 = "EXC", nc.exc_name(e)
                 add("names mlsxbytes " + nc.hexb(wire), nc.canon_entry((p1, e1)), "parse_mlsx_line", inp)
                 # MLST framing
                 data = await F.reply_bytes("250", ["start", s, "end"], True)
                 rc, rinfo = await F.client_parse_response(data)
                 mid = rinfo[1].lstrip()
                 add("names mlst " + enc_str(s), enc_str(mid), "MLST framing + lstrip", inp)
-                p2, e2 = client.parse_mlsx_line(mid)
+                try:
+                    p2, e2 = client.parse_mlsx_line(mid)
+                except Exception as e:  # noqa
+                    p2, e2 = "EXC", nc.exc_name(e)
                 add("names mlsxparse " + enc_str(mid), nc.canon_entry((p2, e2)), "parse_mlsx_line(str)", inp)
                 want_entry = {k.lower(): str(v) for k, v in facts.items()}
                 if ok_name:
                     for tag, p, e in (("mlsd", p1, e1), ("mlst", p2, e2)):
-                        if p.parts != (n,):
+                        if p == "EXC":
+                            fail(dict(inp, step=tag), "the %s line the server builds for %r is rejected by the client's parser (%s)" % (tag.upper(), n, e), "C08:mlsx-unparsable")
+                        elif p.parts != (n,):
                             fail(dict(inp, step=tag), "%s line for %r is read back as name %r" % (tag.upper(), n, str(p)), "C08:mlsx-name")
                         elif e != want_entry:
                             fail(dict(inp, step=tag), "%s facts for %r read back as %r" % (tag.upper(), n, e), "C08:mlsx-facts")
